@@ -14,6 +14,18 @@ NOTE_COMMON = (
 )
 
 CHECKS = {
+    "C05": dict(
+        technique="Lean 4 theorems (commutativity, associativity, identity, inverse, power laws, homomorphism, equality criterion over any field with lawful rational powers) + correspondence of Unit.__mul__/__truediv__/__pow__/__eq__ with the model",
+        text="Proof: the algebraic laws of unit multiplication/division/rational powers, including the offset and logarithmic guards as explicit "
+             "refusal cases, are Lean theorems about the model of Unit.__mul__/__truediv__/__pow__/__eq__/as_coeff_unit, for every unit value over "
+             "any field whose rational-power operation satisfies the usual laws on positive elements. The model is tied to the code by running "
+             "both on thousands of unit pairs (atomic exhaustively in the thorough tier, prefixed, compound, custom registry) and comparing scale, "
+             "offset, dimension, normalised expression and refusals; the laws are also evaluated directly on the library (incl. hash equality and "
+             "simplify()/as_coeff_unit()) as the failing-input search.",
+        design_ref="§5 C05",
+        note=NOTE_COMMON + " hash congruence and simplify() are covered by the direct oracle only (no theorem yet about the canonical-form uniqueness "
+             "of sympy expressions); RPowLaws are hypotheses of the power-law theorems (proved for positive reals with Mathlib in UnytProofs/Real).",
+    ),
     "C03": dict(
         technique="Lean 4 theorems (affine conversion laws over any char-0 field, route agreement) + correspondence of the hand model with unyt",
         text="Proof: identity/inverse/composition of the affine conversion rule (with the prefix-aware offset) and agreement of "
